@@ -382,6 +382,9 @@ def replay(model, seed, case, inst, negative=False):
     qa, qb, qc = Q(x, qt, axis), Q(y, qt, axis), Q(z, qt, axis)
     qsame = Q(x.flip(0), qt, axis)
     qsame._scale = qa._scale
+    # same codes as qa under a scale a few ppm larger: strictly greater wherever the code is positive
+    qnear = Q(x, qt, axis)
+    qnear._scale = qa._scale * 1.000002
     op = inst["op"]
     progs = {
         "cat-three": lambda: (torch.cat([qa, qb, qc]), torch.cat([qa.dequantize(), qb.dequantize(), qc.dequantize()])),
@@ -390,7 +393,7 @@ def replay(model, seed, case, inst, negative=False):
         "copy_-plain-from-q": lambda: (torch.zeros(3, 4).copy_(qa), torch.zeros(3, 4).copy_(qa.dequantize())),
         "div-plain-by-q": lambda: (torch.div(y, qa), torch.div(y, qa.dequantize())),
         "lt-same-scale": lambda: (torch.lt(qa, qsame), torch.lt(qa.dequantize(), qsame.dequantize())),
-        "lt-any-scales": lambda: (torch.lt(qa, qb), torch.lt(qa.dequantize(), qb.dequantize())),
+        "lt-any-scales": lambda: ([torch.lt(qa, qb), torch.lt(qa, qnear)], [torch.lt(qa.dequantize(), qb.dequantize()), torch.lt(qa.dequantize(), qnear.dequantize())]),
         "relu": lambda: (torch.relu(qa), torch.relu(qa.dequantize())),
         "t-1d": lambda: (Q(x[0], qt).t(), Q(x[0], qt).dequantize().t()),
         "mul-q-1elem-tensor": lambda: (qa * torch.full((1, 1, 1), 0.5), qa.dequantize() * torch.full((1, 1, 1), 0.5)),
